@@ -72,6 +72,7 @@ var rfcS2C = []byte{0, 0, 0, 15, 1}
 
 type peerSrv struct {
 	ln       net.Listener
+	ln2      net.Listener // the same peer at 127.0.0.1, which is what the name "localhost" resolves to (nil: it does not)
 	cert     tls.Certificate
 	pool     *x509.CertPool
 	sentIP   net.IP
@@ -120,15 +121,27 @@ func newPeer(ip, sentinelIP net.IP, cert tls.Certificate, pool *x509.CertPool) *
 		panic(err)
 	}
 	p := &peerSrv{ln: ln, cert: cert, pool: pool, sentIP: sentinelIP, sentinel: make(chan struct{}, 16)}
-	go p.acceptLoop()
+	go p.acceptLoop(p.ln)
+	if addrs, err := net.LookupHost("localhost"); err == nil {
+		for _, a := range addrs {
+			if a == "127.0.0.1" {
+				if ln2, err := net.Listen("tcp", "127.0.0.1:0"); err == nil {
+					p.ln2 = ln2
+					go p.acceptLoop(ln2)
+				}
+			}
+		}
+	}
 	return p
 }
 
 func (p *peerSrv) port() int { return p.ln.Addr().(*net.TCPAddr).Port }
 
-func (p *peerSrv) acceptLoop() {
+func (p *peerSrv) port2() int { return p.ln2.Addr().(*net.TCPAddr).Port }
+
+func (p *peerSrv) acceptLoop(ln net.Listener) {
 	for {
-		c, err := p.ln.Accept()
+		c, err := ln.Accept()
 		if err != nil {
 			return
 		}
@@ -230,17 +243,23 @@ func (p *peerSrv) begin(sc *script) {
 // end waits until every connection opened so far has been accepted and handled and returns
 // the number of connections and what was seen of the first one.
 func (p *peerSrv) end() (int, connObs) {
-	d := net.Dialer{LocalAddr: &net.TCPAddr{IP: p.sentIP}, Timeout: 30 * time.Second}
-	c, err := d.Dial("tcp", p.ln.Addr().String())
-	if err != nil {
-		panic("sentinel connection failed: " + err.Error())
+	lns := []net.Listener{p.ln}
+	if p.ln2 != nil {
+		lns = append(lns, p.ln2)
 	}
-	select {
-	case <-p.sentinel:
-	case <-time.After(60 * time.Second):
-		panic("sentinel connection was not accepted")
+	for _, ln := range lns {
+		d := net.Dialer{LocalAddr: &net.TCPAddr{IP: p.sentIP}, Timeout: 30 * time.Second}
+		c, err := d.Dial("tcp", ln.Addr().String())
+		if err != nil {
+			panic("sentinel connection failed: " + err.Error())
+		}
+		select {
+		case <-p.sentinel:
+		case <-time.After(60 * time.Second):
+			panic("sentinel connection was not accepted")
+		}
+		c.Close()
 	}
-	c.Close()
 	p.mu.Lock()
 	for _, h := range p.held {
 		h.Close()
